@@ -464,6 +464,45 @@ pub fn run(tier: &str) -> i32 {
         all.merge(tacc);
     }
 
+    // ---- a thread that issues, stays idle, and issues again (a service between requests): nothing an idle period
+    //      does - re-seeding, re-keying, trimming a pool - may bring earlier nonces back. Idle periods of 1.2 s and
+    //      6 s of real time, once per run (release profile only: the pass costs wall-clock time, not work)
+    if crate::report::profile() == "release" {
+        let mut iacc = Acc::default();
+        let mut per_proto: Vec<(Proto, Layer, HashSet<String>, usize)> = protos.iter().flat_map(|p| [Layer::Generic, Layer::Prelude].into_iter().map(move |l| (*p, l, HashSet::new(), 0usize))).collect();
+        for round in 0..3 {
+            for (p, l, seen, built) in per_proto.iter_mut() {
+                for _ in 0..40 {
+                    if let Some(n) = build_one_nonce(*p, *l) {
+                        seen.insert(n);
+                        *built += 1;
+                    }
+                }
+            }
+            if round == 0 {
+                std::thread::sleep(std::time::Duration::from_millis(1_200));
+            } else if round == 1 {
+                std::thread::sleep(std::time::Duration::from_millis(6_000));
+            }
+        }
+        for (p, l, seen, built) in &per_proto {
+            iacc.executions += *built as u64;
+            if *built == 0 {
+                crate::report::machinery_error("the idle pass built no token");
+            }
+            if seen.len() != *built {
+                iacc.violate(
+                    format!("C10|{}|nonce-reuse-after-idle", p.name()),
+                    format!("{}/{}: one thread built 40 tokens, was idle for 1.2 s, built 40, was idle for 6 s, built 40 (identical claims, one key): {} distinct nonces among {}", p.name(), l.name(), seen.len(), built),
+                    json!({"nonce_case": NonceCase { proto: *p, history: vec![HOp::NewGeneric, HOp::ClaimsSame, HOp::Build], script: vec![] }, "cross_process": true, "idle": true}),
+                );
+            } else {
+                iacc.bump("idle-pass:distinct");
+            }
+        }
+        all.merge(iacc);
+    }
+
     // ---- a forked copy of a process that has already drawn: parent and copy must not hand out the same nonces
     {
         let mut facc = Acc::default();
